@@ -11,7 +11,7 @@ import itertools
 import random
 from typing import Callable, Iterator, Tuple
 
-from . import build, spec
+from . import build, refsem, spec
 
 
 def generated_designs(ctx, rng, n_random: int, depth: int = 2) -> Iterator[Tuple[str, Callable]]:
@@ -26,6 +26,25 @@ def generated_designs(ctx, rng, n_random: int, depth: int = 2) -> Iterator[Tuple
         yield label, mk(d)
     for k in range(n_random):
         yield f"random #{k}", mk(spec.random_design(rng))
+    # strided / reversed slices and nested concatenations, on narrow (also one-bit) signals
+    for k in range(max(20, n_random // 4)):
+        yield f"random-strided #{k}", mk(spec.random_design(rng, allow_step=True, max_width=1 + k % 3, max_modules=2))
+    yield "one-bit strided / nested concat forms", mk(_onebit_forms())
+
+
+def _onebit_forms() -> dict:
+    """Expression forms on one-bit signals that must keep their exported shape through a round trip."""
+    S = lambda n: ["sig", n]
+    z = S("z")
+    forms = [["slice", z, [None, None, -1]], ["slice", z, [None, None, 2]], ["slice", z, [0, 1, None]], ["slice", ["cat", z], [None, None, None]],
+             ["slice", ["cat", ["cat", z], S("y"), S("w")], [0, 2, None]], ["cat", ["cat", z]], ["cat", ["slice", z, [None, None, -1]], S("y")],
+             ["slice", ["slice", S("y"), [None, None, -1]], [0, 1, None]]]
+    insts = []
+    for k, e in enumerate(forms):
+        w = len(refsem.Local({"bundles": {}, "modules": []}, {"name": "F", "ports": [], "bports": [], "sigs": [["z", 1], ["y", 1], ["w", 1]], "buns": [], "insts": []}).bits(e))
+        insts.append({"name": f"f{k}", "kind": "single", "of": ["leaf", refsem.wleaf(w)], "tag": k, "conns": {"p": e}})
+    top = {"name": "F", "style": "proc", "ports": [], "bports": [], "sigs": [["z", 1], ["y", 1], ["w", 1]], "buns": [], "insts": insts}
+    return {"bundles": {}, "modules": [top], "top": "F"}
 
 
 def examples(ctx) -> Iterator[Tuple[str, Callable]]:
